@@ -110,6 +110,23 @@ int main(int argc, char** argv) {
       }
     R.count("absolute_inputs_x_bases", n2);
   }
+  // (a3) hosts around the 16 KiB IDNA input guard (ada::idna::max_domain_input_bytes): the full parser rejects a host above
+  // the guard when it has to go through domain-to-ASCII (an upper-case or non-ASCII byte) and accepts it on its pure
+  // lower-case shortcut; can_parse must give the same verdicts. Lengths 16380..16390, 17000, first byte in {g, G, 1}.
+  if (sh == 0) {
+    uint64_t n3 = 0;
+    for (size_t hl : {size_t(16380), size_t(16383), size_t(16384), size_t(16385), size_t(16386), size_t(16390), size_t(17000)})
+      for (char first : {'g', 'G', '1'})
+        for (const char* pre : {"http://", "ws://", "https://u@"})
+          for (const char* post : {"/", ":8/p", ""}) {
+            std::string in = std::string(pre) + std::string(1, first) + std::string(hl - 1, 'g') + post;
+            eval(in, nullptr, NOLIMIT);
+            static const std::string okbase = "http://b/";
+            eval(in, &okbase, NOLIMIT);
+            n3++;
+          }
+    R.count("long_host_inputs", n3);
+  }
   // (b) deeper inputs, no base
   uint64_t nb = enum_tokens(tok, ki + 1, ki_nobase, sh, ns, [&](const std::string& s, uint64_t) { eval(s, nullptr, NOLIMIT); });
   R.count("inputs_no_base_deeper", nb);
